@@ -763,7 +763,9 @@ fn compare(env: &Value, calls: &[String], exp_outs: &[Value], exp_reqs: &[Value]
             }
             checked_reqs += 1;
         }
-        if act_n != exp_n {
+        // (an item leaked through EntriesOnly comes back one call early: the follow-up request the specification expects
+        //  during this call is merely late, and the divergence is the leak)
+        if act_n != exp_n && !(leaked && act_n < exp_n) {
             let detail = if act_n > exp_n {
                 // what made the client continue?
                 let last = env["pages"].as_array().unwrap().get(exp_n.max(1) - 1).cloned().unwrap_or(Value::Null);
